@@ -29,7 +29,10 @@ ASSUMPTIONS = [
     "the weaker reading C10 takes (those packets may be left unanswered, the STALL is owed at the status stage) -- the unchanged code satisfies the "
     "weaker reading of this clause",
     "requests the statement says nothing about (standard requests other than GET_DESCRIPTOR / SET_ADDRESS / SET_CONFIGURATION / "
-    "GET_CONFIGURATION / GET_STATUS, SET_LINE_CODING with the direction bit set) are generated but not judged",
+    "GET_CONFIGURATION / GET_STATUS / CLEAR_FEATURE(ENDPOINT_HALT), SET_LINE_CODING with the direction bit set) are generated but not judged",
+    "CLEAR_FEATURE(ENDPOINT_HALT) with wIndex 0x04 / 0x84 is accepted and restarts the data toggle of exactly the data OUT / IN endpoint (the host "
+    "then sends / expects DATA0 there); any other endpoint address changes nothing on endpoint 4.  Host histories issue it, GET_STATUS, "
+    "SET_LINE_CODING, SET_CONTROL_LINE_STATE and GET_DESCRIPTOR between bulk packets at every toggle phase (directed _scn_toggles + random)",
     "safety only for the byte streams: order, no loss in the middle, no duplication, nothing from refused packets; that the last bytes are "
     "eventually delivered is not expressible in a cycle observer and is not checked",
     "complete-device targets use a raw UTMI bus (full speed, 12 MHz constants); no ULPI/high speed",
@@ -163,6 +166,14 @@ def serial_script(rng, mps, prod, flavour, tab):
         await h.control_out(0x21, 0x22, 3, 0)                                  # SET_CONTROL_LINE_STATE: must STALL
 
     async def one(h):
+        if rng.random() < 0.12:
+            # standard requests that must not disturb the data path, at whatever toggle phase the two data endpoints are in
+            k = rng.random()
+            if k < 0.7:
+                await clear_halt(h, rng.choice([0x84, 0x84, 0x84, 0x04, 0x04, 0x83, 0x03, 0x00, 0x80, 0x8F]))
+            else:
+                await h.control_in(rng.choice([0x80, 0x81, 0x82]), 0, 0, rng.choice([0, 0x04, 0x84]), 2)
+            return
         r = rng.random()
         if r < 0.10:
             k = rng.choice(keys + [0x0600, 0x0700, 0x0305, 0x0f00, 0x2100])
@@ -240,6 +251,63 @@ def serial_script(rng, mps, prod, flavour, tab):
     return script
 
 
+async def clear_halt(h, windex):
+    """CLEAR_FEATURE(ENDPOINT_HALT) to endpoint address `windex`: restarts the data toggle of exactly that endpoint and direction;
+    the host then sends DATA0 next on OUT endpoint 4 (0x04) / expects DATA0 next on IN endpoint 4 (0x84; tracked by the observer)"""
+    r = await h.control_out(0x02, 1, 0, windex)
+    if r == 'ok' and (windex & 0x8F) == 0x04:
+        h.out_pid = PID_DATA0
+    return r
+
+
+def _scn_toggles(prod, mps):
+    """Control requests that must leave the data path alone, issued at every toggle phase of the data OUT / IN endpoints (seeded/C57_2:
+    CLEAR_FEATURE(ENDPOINT_HALT) on the IN endpoint 0x84 must not restart the OUT toggle, and vice versa); each is followed by at least
+    two OUT packets and an IN packet so that a lost or duplicated byte shows on the streams."""
+    async def script(h):
+        h.out_pid = PID_DATA0
+        cnt = [0]
+
+        async def out(n):
+            for _ in range(n):
+                pl = [(cnt[0] + j) & 0xff for j in range(3)]; cnt[0] += 3
+                r = await h.out_txn(4, pl, data_pid=h.out_pid)
+                if r == ('hs', PID_ACK):
+                    h.out_pid = PID_DATA1 if h.out_pid == PID_DATA0 else PID_DATA0
+
+        async def inn(n=1):
+            for _ in range(n):
+                prod.push([(0x80 + cnt[0] + j) & 0xff for j in range(2)]); cnt[0] += 2
+                await h.idle(8)
+                await h.in_txn(4)
+        await h.idle(3)
+        await out(1)                       # the OUT endpoint now expects DATA1
+        await clear_halt(h, 0x84)          # IN endpoint only
+        await out(2)
+        await inn(1)                       # the IN endpoint will use DATA1 next
+        await clear_halt(h, 0x04)          # OUT endpoint only: host restarts at DATA0, IN goes on with DATA1
+        await inn(1)
+        await out(1)
+        await clear_halt(h, 0x84)          # IN restarts at DATA0
+        await inn(2)
+        await out(2)
+        await h.control_in(0x82, 0, 0, 0x84, 2)                                   # GET_STATUS(endpoint)
+        await out(1)
+        await h.control_out(0x21, 0x20, 0, 0, [0x80, 0x25, 0, 0, 0, 0, 8])         # SET_LINE_CODING
+        await out(1); await inn(1)
+        await h.control_out(0x21, 0x22, 3, 0)                                      # SET_CONTROL_LINE_STATE (STALLed)
+        await out(1)
+        await h.control_in(0x80, 6, 0x0100, 0, 18)                                 # GET_DESCRIPTOR
+        await out(1); await inn(1)
+        await clear_halt(h, 0x83)          # notification endpoint: nothing on endpoint 4 changes
+        await out(2); await inn(1)
+        await clear_halt(h, 0x04)
+        await clear_halt(h, 0x84)
+        await out(2); await inn(2)
+        await h.idle(3 * mps + 20)
+    return script
+
+
 def _scn_enum(prod, mps):
     async def script(h):
         await h.idle(3)
@@ -301,7 +369,7 @@ def _scn_backpressure(prod, mps):
     return script
 
 
-DIRECTED = [_scn_enum, _scn_stall_nodata, _scn_stall_outdata, _scn_bytes, _scn_backpressure]
+DIRECTED = [_scn_enum, _scn_stall_nodata, _scn_stall_outdata, _scn_bytes, _scn_backpressure, _scn_toggles]
 
 
 def serial_traces(t, rng, tier):
